@@ -406,10 +406,18 @@ class RequestWideParams(object):
         # TODO(efried): Make it an error to specify limit more than once -
         #  maybe when we make group_policy optional.
         limit = req.GET.getall('limit')
-        # JSONschema has already confirmed that limit has the form
-        # of an integer.
+        # JSONschema has confirmed that limit has the form of an integer,
+        # but when limit is repeated it has only seen the last value and
+        # we use the first.
         if limit:
-            limit = int(limit[0])
+            try:
+                limit = int(limit[0])
+                if limit < 1:
+                    raise ValueError()
+            except ValueError:
+                raise webob.exc.HTTPBadRequest(
+                    "Invalid query string parameters: Expected 'limit' "
+                    "parameter to be a positive integer. Got: %s" % limit[0])
 
         # TODO(efried): Make it an error to specify group_policy more than once
         #  - maybe when we make it optional.
